@@ -237,18 +237,18 @@ func (w *world) Run(t *rt.Tape, trace bool) *core.Result {
 	return res
 }
 
-// protocol: two processes, disk, pipe, restart pattern.
+// protocol: garbler and evaluator processes, disk, pipe, restart pattern. In a
+// third of the cases the garbler process and the evaluator process each serve
+// two protocol sessions at once (two tasks per process sharing the package's
+// circuit and its scratch pool), interleaved by the scheduler between any two
+// steps - a server handling two clients.
 func (w *world) protocol(t *rt.Tape, trace bool, res *core.Result, smp *sample, curve elliptic.Curve, a, b [32]byte) *core.Failure {
 	smp.Mode = "protocol with crash/restart pattern"
-	pattern := t.Choose(rt.SFault, 32)
-	if t.Choose(rt.SFault, 8) == 0 {
-		pattern = 31
-	}
-	for i, n := range restartNames {
-		if pattern>>i&1 == 1 {
-			smp.Restarts += n + "; "
-			res.Faults["restart: "+n]++
-		}
+	nSess := 1
+	if t.Choose(rt.SGen, 3) == 0 {
+		nSess = 2
+		smp.Mode += ", two interleaved sessions per process"
+		res.Reach["protocol.two-interleaved-sessions"]++
 	}
 	ge, _ := core.DrawDir(t, core.Caps)
 	eg, _ := core.DrawDir(t, core.Caps)
@@ -261,167 +261,209 @@ func (w *world) protocol(t *rt.Tape, trace bool, res *core.Result, smp *sample, 
 		}
 	}
 	smp.Pipe = core.DescribeDir(ge) + " / " + core.DescribeDir(eg)
-	ea, eb := simnet.Pipe("G", "E", simnet.PipeConfig{AB: ge, BA: eg})
-	diskG, diskE := simdisk.New(), simdisk.New()
-	var gErr, eErr error
-	var digest [32]byte
-	var gDone, eDone bool
+	type sess struct {
+		pattern      int
+		a, b         [32]byte
+		gErr, eErr   error
+		digest       [32]byte
+		gDone, eDone bool
+		restarts     string
+	}
+	rH := simrand.Stream("harness2")
+	ss := make([]*sess, nSess)
+	for i := range ss {
+		x := &sess{pattern: t.Choose(rt.SFault, 32), a: a, b: b}
+		if t.Choose(rt.SFault, 8) == 0 {
+			x.pattern = 31
+		}
+		if i > 0 {
+			x.a, x.b = DrawInput(t, rH), DrawInput(t, rH)
+		}
+		for k, n := range restartNames {
+			if x.pattern>>k&1 == 1 {
+				x.restarts += n + "; "
+				res.Faults["restart: "+n]++
+			}
+		}
+		smp.Restarts += fmt.Sprintf("[session %d: %s] ", i, x.restarts)
+		ss[i] = x
+	}
 	downtime := func() { rt.Sleep(time.Duration(1+rt.Choose(rt.SFault, 50)) * time.Millisecond) }
+	stall := func() {
+		if rt.Choose(rt.SFault, 2) == 1 {
+			res.Faults["stall between producing and serialising a message"]++
+			rt.Sleep(time.Duration(1+rt.Choose(rt.SFault, 200)) * time.Millisecond)
+		} else {
+			rt.Yield()
+		}
+	}
 
 	rr := rt.Run(rt.Config{Trace: trace, NoProgress: core.NoProgressDefault}, t, func() {
-		rt.GoParty("G", "garbler-process", func() {
-			defer func() { gDone = true; ea.Close() }()
-			gErr = safe("garbler", func() error {
-				rng := simrand.Stream("G#0")
-				m1, gs, err := sha2pc.GarblerRound1(rng, curve)
-				if err != nil {
-					return err
-				}
-				enc, err := sha2pc.EncodeGarblerSession(curve, gs)
-				if err != nil {
-					return err
-				}
-				diskG.Write("session", enc)
-				diskG.Sync("session")
-				b1, err := sha2pc.EncodeRound1(curve, m1)
-				if err != nil {
-					return err
-				}
-				if err := sendMsg(ea, b1); err != nil {
-					return err
-				}
-				if pattern&1 != 0 { // crash: only the disk survives
-					gs = nil
-					diskG.Crash(0)
-					downtime()
-					rng = simrand.Stream("G#1")
-					raw, err := diskG.Read("session")
+		for i, x := range ss {
+			i, x := i, x
+			pattern := x.pattern
+			ea, eb := simnet.Pipe(fmt.Sprintf("G%d", i), fmt.Sprintf("E%d", i), simnet.PipeConfig{AB: ge, BA: eg})
+			diskG, diskE := simdisk.New(), simdisk.New()
+			rt.GoParty("G", fmt.Sprintf("garbler-session-%d", i), func() {
+				defer func() { x.gDone = true; ea.Close() }()
+				x.gErr = safe("garbler", func() error {
+					rng := simrand.Stream(fmt.Sprintf("G%d#0", i))
+					m1, gs, err := sha2pc.GarblerRound1(rng, curve)
 					if err != nil {
 						return err
 					}
-					if gs, err = sha2pc.DecodeGarblerSession(curve, raw); err != nil {
-						return fmt.Errorf("restart: DecodeGarblerSession: %w", err)
-					}
-				}
-				b2, err := recvMsg(ea)
-				if err != nil {
-					return err
-				}
-				diskG.Write("msg2", b2)
-				diskG.Sync("msg2")
-				if pattern&2 != 0 {
-					gs, b2 = nil, nil
-					diskG.Crash(0)
-					downtime()
-					rng = simrand.Stream("G#2")
-					raw, err := diskG.Read("session")
+					rt.Yield()
+					enc, err := sha2pc.EncodeGarblerSession(curve, gs)
 					if err != nil {
 						return err
 					}
-					if gs, err = sha2pc.DecodeGarblerSession(curve, raw); err != nil {
-						return fmt.Errorf("restart: DecodeGarblerSession: %w", err)
-					}
-					if b2, err = diskG.Read("msg2"); err != nil {
+					diskG.Write("session", enc)
+					diskG.Sync("session")
+					b1, err := sha2pc.EncodeRound1(curve, m1)
+					if err != nil {
 						return err
 					}
-				}
-				m2, err := sha2pc.DecodeRound2(curve, b2)
-				if err != nil {
-					return err
-				}
-				m3, err := sha2pc.GarblerRound3(rng, curve, gs, a, m2)
-				if err != nil {
-					return err
-				}
-				b3, err := sha2pc.EncodeRound3(m3)
-				if err != nil {
-					return err
-				}
-				return sendMsg(ea, b3)
+					if err := sendMsg(ea, b1); err != nil {
+						return err
+					}
+					if pattern&1 != 0 { // crash: only the disk survives
+						gs = nil
+						diskG.Crash(0)
+						downtime()
+						rng = simrand.Stream(fmt.Sprintf("G%d#1", i))
+						raw, err := diskG.Read("session")
+						if err != nil {
+							return err
+						}
+						if gs, err = sha2pc.DecodeGarblerSession(curve, raw); err != nil {
+							return fmt.Errorf("restart: DecodeGarblerSession: %w", err)
+						}
+					}
+					b2, err := recvMsg(ea)
+					if err != nil {
+						return err
+					}
+					diskG.Write("msg2", b2)
+					diskG.Sync("msg2")
+					if pattern&2 != 0 {
+						gs, b2 = nil, nil
+						diskG.Crash(0)
+						downtime()
+						rng = simrand.Stream(fmt.Sprintf("G%d#2", i))
+						raw, err := diskG.Read("session")
+						if err != nil {
+							return err
+						}
+						if gs, err = sha2pc.DecodeGarblerSession(curve, raw); err != nil {
+							return fmt.Errorf("restart: DecodeGarblerSession: %w", err)
+						}
+						if b2, err = diskG.Read("msg2"); err != nil {
+							return err
+						}
+					}
+					m2, err := sha2pc.DecodeRound2(curve, b2)
+					if err != nil {
+						return err
+					}
+					m3, err := sha2pc.GarblerRound3(rng, curve, gs, x.a, m2)
+					if err != nil {
+						return err
+					}
+					// a server may handle another session between producing a
+					// message and serialising it (stall of tape-chosen length)
+					stall()
+					b3, err := sha2pc.EncodeRound3(m3)
+					if err != nil {
+						return err
+					}
+					return sendMsg(ea, b3)
+				})
 			})
-		})
-		rt.GoParty("E", "evaluator-process", func() {
-			defer func() { eDone = true; eb.Close() }()
-			eErr = safe("evaluator", func() error {
-				rng := simrand.Stream("E#0")
-				b1, err := recvMsg(eb)
-				if err != nil {
-					return err
-				}
-				diskE.Write("msg1", b1)
-				diskE.Sync("msg1")
-				if pattern&4 != 0 {
-					b1 = nil
-					diskE.Crash(0)
-					downtime()
-					rng = simrand.Stream("E#1")
-					if b1, err = diskE.Read("msg1"); err != nil {
-						return err
-					}
-				}
-				m1, err := sha2pc.DecodeRound1(curve, b1)
-				if err != nil {
-					return err
-				}
-				m2, es, err := sha2pc.EvaluatorRound2(rng, curve, m1, b)
-				if err != nil {
-					return err
-				}
-				enc, err := sha2pc.EncodeEvaluatorSession(curve, es)
-				if err != nil {
-					return err
-				}
-				diskE.Write("session", enc)
-				diskE.Sync("session")
-				b2, err := sha2pc.EncodeRound2(curve, m2)
-				if err != nil {
-					return err
-				}
-				if err := sendMsg(eb, b2); err != nil {
-					return err
-				}
-				reload := func(stream string) error {
-					es = nil
-					diskE.Crash(0)
-					downtime()
-					rng = simrand.Stream(stream)
-					raw, err := diskE.Read("session")
+			rt.GoParty("E", fmt.Sprintf("evaluator-session-%d", i), func() {
+				defer func() { x.eDone = true; eb.Close() }()
+				x.eErr = safe("evaluator", func() error {
+					rng := simrand.Stream(fmt.Sprintf("E%d#0", i))
+					b1, err := recvMsg(eb)
 					if err != nil {
 						return err
 					}
-					if es, err = sha2pc.DecodeEvaluatorSession(curve, raw); err != nil {
-						return fmt.Errorf("restart: DecodeEvaluatorSession: %w", err)
+					diskE.Write("msg1", b1)
+					diskE.Sync("msg1")
+					if pattern&4 != 0 {
+						b1 = nil
+						diskE.Crash(0)
+						downtime()
+						rng = simrand.Stream(fmt.Sprintf("E%d#1", i))
+						if b1, err = diskE.Read("msg1"); err != nil {
+							return err
+						}
 					}
-					return nil
-				}
-				if pattern&8 != 0 {
-					if err := reload("E#2"); err != nil {
+					m1, err := sha2pc.DecodeRound1(curve, b1)
+					if err != nil {
 						return err
 					}
-				}
-				b3, err := recvMsg(eb)
-				if err != nil {
+					m2, es, err := sha2pc.EvaluatorRound2(rng, curve, m1, x.b)
+					if err != nil {
+						return err
+					}
+					rt.Yield()
+					enc, err := sha2pc.EncodeEvaluatorSession(curve, es)
+					if err != nil {
+						return err
+					}
+					diskE.Write("session", enc)
+					diskE.Sync("session")
+					b2, err := sha2pc.EncodeRound2(curve, m2)
+					if err != nil {
+						return err
+					}
+					if err := sendMsg(eb, b2); err != nil {
+						return err
+					}
+					reload := func(stream string) error {
+						es = nil
+						diskE.Crash(0)
+						downtime()
+						rng = simrand.Stream(stream)
+						raw, err := diskE.Read("session")
+						if err != nil {
+							return err
+						}
+						if es, err = sha2pc.DecodeEvaluatorSession(curve, raw); err != nil {
+							return fmt.Errorf("restart: DecodeEvaluatorSession: %w", err)
+						}
+						return nil
+					}
+					if pattern&8 != 0 {
+						if err := reload(fmt.Sprintf("E%d#2", i)); err != nil {
+							return err
+						}
+					}
+					b3, err := recvMsg(eb)
+					if err != nil {
+						return err
+					}
+					diskE.Write("msg3", b3)
+					diskE.Sync("msg3")
+					if pattern&16 != 0 {
+						b3 = nil
+						if err := reload(fmt.Sprintf("E%d#3", i)); err != nil {
+							return err
+						}
+						if b3, err = diskE.Read("msg3"); err != nil {
+							return err
+						}
+					}
+					m3, err := sha2pc.DecodeRound3(b3)
+					if err != nil {
+						return err
+					}
+					rt.Yield()
+					x.digest, err = sha2pc.EvaluatorRound4(curve, es, m3)
 					return err
-				}
-				diskE.Write("msg3", b3)
-				diskE.Sync("msg3")
-				if pattern&16 != 0 {
-					b3 = nil
-					if err := reload("E#3"); err != nil {
-						return err
-					}
-					if b3, err = diskE.Read("msg3"); err != nil {
-						return err
-					}
-				}
-				m3, err := sha2pc.DecodeRound3(b3)
-				if err != nil {
-					return err
-				}
-				digest, err = sha2pc.EvaluatorRound4(curve, es, m3)
-				return err
+				})
 			})
-		})
+		}
 	})
 	core.Finish(res, rr)
 	if res.Inconclusive != "" {
@@ -430,22 +472,24 @@ func (w *world) protocol(t *rt.Tape, trace bool, res *core.Result, smp *sample, 
 	if len(rr.Crashed) > 0 {
 		return &core.Failure{Clause: "panic", Detail: core.CrashDetail(rr)}
 	}
-	for _, e := range []error{gErr, eErr} {
-		if isPanic(e) {
-			return &core.Failure{Clause: "panic", Detail: e.Error()}
+	for i, x := range ss {
+		for _, e := range []error{x.gErr, x.eErr} {
+			if isPanic(e) {
+				return &core.Failure{Clause: "panic", Detail: e.Error()}
+			}
 		}
-	}
-	if gErr != nil {
-		return &core.Failure{Clause: "protocol-error", Detail: fmt.Sprintf("garbler (restarts: %s): %v", smp.Restarts, gErr)}
-	}
-	if eErr != nil {
-		return &core.Failure{Clause: "protocol-error", Detail: fmt.Sprintf("evaluator (restarts: %s): %v", smp.Restarts, eErr)}
-	}
-	if !gDone || !eDone {
-		return &core.Failure{Clause: "did-not-terminate", Detail: fmt.Sprintf("%v %v", rr.Outcome, rr.Blocked)}
-	}
-	if wd := want(a, b); digest != wd {
-		return &core.Failure{Clause: "wrong-digest", Detail: fmt.Sprintf("evaluator output %x, SHA-256(a xor b) = %x (curve %s, restarts: %s)", digest, wd, smp.Curve, smp.Restarts)}
+		if x.gErr != nil {
+			return &core.Failure{Clause: "protocol-error", Detail: fmt.Sprintf("session %d of %d, garbler (restarts: %s): %v", i, nSess, x.restarts, x.gErr)}
+		}
+		if x.eErr != nil {
+			return &core.Failure{Clause: "protocol-error", Detail: fmt.Sprintf("session %d of %d, evaluator (restarts: %s): %v", i, nSess, x.restarts, x.eErr)}
+		}
+		if !x.gDone || !x.eDone {
+			return &core.Failure{Clause: "did-not-terminate", Detail: fmt.Sprintf("%v %v", rr.Outcome, rr.Blocked)}
+		}
+		if wd := want(x.a, x.b); x.digest != wd {
+			return &core.Failure{Clause: "wrong-digest", Detail: fmt.Sprintf("session %d of %d: evaluator output %x, SHA-256(a xor b) = %x (curve %s, restarts: %s)", i, nSess, x.digest, wd, smp.Curve, x.restarts)}
+		}
 	}
 	return nil
 }
